@@ -129,6 +129,9 @@ class SchemaSpec:
         self.objrepr = "obj"  # "obj" | "dict"
         self.root_default = False
         self.share_fields = False
+        # GraphQL argument names handed to resolvers under another keyword
+        # (Argument.python_name = "py_" + name)
+        self.pyname_args = frozenset()
         # (type, field, argument) -> (python default, literal): an object type
         # may declare another default than its siblings / its interface
         self.arg_overrides = {}
@@ -412,6 +415,9 @@ def gen_schema(st, want_mutation=False, small=False,
             if b == "tdefault" and tname == "Subscription":
                 b = "sync"
             spec.behaviours[(tname, f)] = b
+    if st.chance(1, 2, "pynames"):
+        spec.pyname_args = frozenset(
+            a.name for a in ARG_POOL if st.chance(1, 3, "pyname"))
     spec.share_fields = st.chance(1, 2, "share_fields")
     if spec.share_fields:
         # fields listed by several object types are then mostly left to the
@@ -526,6 +532,7 @@ class OpSpec:
         self.vars = {}        # name -> VarInfo (insertion ordered)
         self.extra_op = False
         self.extra_first = False
+        self.extra_text = None
         self.operation_name = None
         self.text = None
 
@@ -1063,9 +1070,18 @@ class OpGen:
             # 1..5 root fields, each possibly repeated / aliased / skipped
             sels = []
             n = 1 + st.below(5, "n_mut")
-            for _ in range(n):
-                f = self._gen_field(op.root_type, self.max_depth)
+            depth = self.max_depth
+            if st.chance(1, 16, "long_chain"):
+                # dozens of root fields: the serial chain nests one level per
+                # deferred root
+                n = 34 + st.below(12, "n_mut_long")
+                depth = 1
+                self.budget += n
+            for i in range(n):
+                f = self._gen_field(op.root_type, depth)
                 if f is not None:
+                    if n >= 34:
+                        f.alias = "c%d" % i  # every root its own response key
                     sels.append(f)
             sels = sels or [self._gen_field(op.root_type, 1)]
             if st.chance(1, 4, "mut_typename"):
@@ -1189,6 +1205,23 @@ def resolve_op(op, spec):
         s_.defaulted = tuple(defaulted)
 
 
+def gql_kwargs(spec, kwargs):
+    """Resolver keyword arguments back under their GraphQL names.  A keyword
+    that should have arrived under its python name but did not is kept apart
+    (so that it cannot pass for the right one)."""
+    if not spec.pyname_args:
+        return kwargs
+    out = {}
+    for k, v in kwargs.items():
+        if k.startswith("py_") and k[3:] in spec.pyname_args:
+            out[k[3:]] = v
+        elif k in spec.pyname_args:
+            out["not-the-python-name:" + k] = v
+        else:
+            out[k] = v
+    return out
+
+
 def effective_kwargs(spec, tname, node):
     """Resolver-side kwargs of ``node`` when resolved on object type
     ``tname`` (argument defaults are those declared on that type)."""
@@ -1298,7 +1331,7 @@ def render(op, layout=0, frags_first=False):
                 o.w(o.newline if o.multiline else " ")
 
     if op.extra_op and op.extra_first:
-        o.w("query Other { __typename }")
+        o.w(getattr(op, "extra_text", None) or "query Other { __typename }")
         o.w(o.newline if o.multiline else " ")
     if frags_first:
         # fragment definitions may precede the operation that uses them
@@ -1309,6 +1342,6 @@ def render(op, layout=0, frags_first=False):
         fragments(False)
     if op.extra_op and not op.extra_first:
         o.w(o.newline if o.multiline else " ")
-        o.w("query Other { __typename }")
+        o.w(getattr(op, "extra_text", None) or "query Other { __typename }")
     op.text = "".join(o.parts)
     return op.text
